@@ -239,13 +239,19 @@ TEnd ==
   /\ nviol' = nviol + Soft("EndExactlyOnce", run = 0 \/ ended \/ (endS = 1 /\ endC = 1), <<run, endS, endC>>)
   /\ UNCHANGED <<scn, hooks, pred, reqi, tx, acq, step, lastw, pendA, failedH, open, cancelled, cmds, laterStart, lateErr, sawAfter, inWin, winStarted, outStarted, run, runView, seen, pg, ended, endS, endC>>
 
+\* after the teardown: no started call is left waiting to hand over its result (each was collected, or cancelled at teardown)
+TPending ==
+  /\ Line.ev = "Pending"
+  /\ nviol' = nviol + Soft("OnceOrCancelled", Line.n = 0, <<"calls still pending after teardown", Line.n>>)
+  /\ UNCHANGED <<scn, hooks, pred, reqi, tx, acq, step, lastw, pendA, failedH, open, cancelled, cmds, laterStart, lateErr, sawAfter, inWin, winStarted, outStarted, run, runView, seen, pg, ended, endS, endC>>
+
 TOther ==
-  /\ Line.ev \notin {"Reset", "Acq", "Rel", "Step", "HS", "HStart", "HAwaited", "HE", "Cmd", "Run", "Reply", "End"}
+  /\ Line.ev \notin {"Reset", "Acq", "Rel", "Step", "HS", "HStart", "HAwaited", "HE", "Cmd", "Run", "Reply", "End", "Pending"}
   /\ UNCHANGED <<scn, hooks, pred, reqi, tx, acq, step, lastw, pendA, failedH, open, cancelled, cmds, laterStart, lateErr, sawAfter, inWin, winStarted, outStarted, run, runView, seen, pg, ended, endS, endC, nviol>>
 
 TraceNext ==
   /\ l <= Len(Trace)
-  /\ (TReset \/ TAcq \/ TRel \/ TStep \/ THS \/ THStart \/ THAwaited \/ THE \/ TCmd \/ TRun \/ TReply \/ TEnd \/ TOther)
+  /\ (TReset \/ TAcq \/ TRel \/ TStep \/ THS \/ THStart \/ THAwaited \/ THE \/ TCmd \/ TRun \/ TReply \/ TEnd \/ TPending \/ TOther)
   /\ l' = l + 1
 
 TraceSpec == Init /\ [][TraceNext]_vars
